@@ -15,7 +15,9 @@
    the mathematical value (CPython) — so a broken proof or a translator failure is reported with a
    concrete program and operand."""
 import json
+import os
 import re
+import subprocess
 
 import vlib
 from vlib import proof_coverage
@@ -237,7 +239,7 @@ def round_values(r, n):
             H64 - 1, H64, H64 + 1, H64 + 1024, H64 + 1025, H64 + 3072, M64 - 1, M64 - 1024, M64 - 1025, M64 - 2048, -H64, -H64 + 1,
             -(1 << 53) - 1, -(1 << 53) - 3, (1 << 62) + (1 << 8), (1 << 62) + (1 << 8) + 1, (1 << 63) + (1 << 10), (1 << 63) + 3 * (1 << 10)]
     while len(vals) < n:
-        bits = r.randint(1, 64)
+        bits = r.choice([r.randint(1, 64), r.randint(54, 64), r.randint(54, 64)])
         v = r.getrandbits(bits)
         k = r.random()
         if k < 0.35 and bits > 54:      # exact ties and their neighbours
@@ -273,9 +275,15 @@ def words(ctx, r):
     cp = ctx.dir / "corpus" / "words.json"
     if cp.exists():
         ws = [int(x) for x in json.loads(cp.read_text())] + ws
-    n = 40 if ctx.quick else 400
+    n = 64 if ctx.quick else 400
     while len(ws) < n:
-        ws.append(r.getrandbits(r.randint(1, 64)))
+        k = r.random()
+        if k < 0.4:
+            ws.append(H64 + r.getrandbits(r.randint(1, 63)))          # nats that are not ints
+        elif k < 0.7:
+            ws.append(r.getrandbits(r.randint(54, 63)))               # above 2^53: rounding matters
+        else:
+            ws.append(r.getrandbits(r.randint(1, 53)))
     return list(dict.fromkeys(ws))
 
 
@@ -461,6 +469,11 @@ def run(ctx):
     else:
         mr = []
 
+    # ---- supporting evidence for the trusted spec: the venv's own runtime executes convert_u / convert_s
+    emu = {"ran": False}
+    if not ctx.quick or os.environ.get("C16_EMU") == "1":
+        emu = runtime_crosscheck(ctx, ctx_r, rvals)
+
     # ---- broken proof / translator with no concrete input found
     if not info["ok"] and found == 0:
         ctx_r.report("proof-broken:" + str(info["failed"])[:200], "proof-broken", str(info["failed"])[:300],
@@ -483,11 +496,38 @@ def run(ctx):
         value_evaluations=value_evals, words=len(ws), words_ge_2p63=sum(1 for w in ws if w >= H64),
         rounding_values=len(mr), rounding_values_above_2p53=sum(1 for v in rvals if abs(v) > 1 << 53), rounding_disagreements=round_bad,
         model_vs_impl_mismatches=mismatches, spec_counterexamples=found,
-        samples=samples, notes=ctx.notes)
+        runtime_crosscheck=emu, samples=samples, notes=ctx.notes)
     return ctx.finish(LEVEL, cov, [
         "convert_u / convert_s round to nearest-even (trusted HUGR/LLVM semantics; not observable on /repo-compiled HUGR in this sandbox)",
         "bool stands for every non-numeric type in the model (try_coerce_to returns None unless both are NumericType)",
         "a nat >= 2^63 is not representable in int: the property demands nothing for it (nat.__int__ is a no-op; see C04's known findings for the operator-level consequences)"])
+
+
+def runtime_crosscheck(ctx, rep, rvals):
+    """convert_u / convert_s executed at run time by the venv's guppylang 1.0.4 + selene (NOT /repo's compiler:
+    its HUGR cannot be emulated here) on values already compared with rne53; supporting evidence only"""
+    us = [v for v in rvals if 0 <= v < M64][:70]
+    ss = [v for v in rvals if -H64 <= v < H64 and (v < 0 or v % 3 == 0)][:70]
+    env = {k: v for k, v in os.environ.items() if k not in ("PYTHONPATH", "VERIF_REPO")}
+    env["PYTHONHASHSEED"] = "0"
+    try:
+        p = subprocess.run([vlib.PY, str(ctx.dir / "emu_convert.py"), json.dumps(us), json.dumps(ss)], env=env, text=True,
+                           cwd=str(ctx.scratch), stdout=subprocess.PIPE, stderr=subprocess.PIPE, timeout=900)
+        out = json.loads(p.stdout.strip().split("\n")[-1])
+    except Exception as e:  # noqa: BLE001
+        ctx.notes.append(f"runtime cross-check of convert_u/convert_s could not run: {type(e).__name__}: {str(e)[:200]}")
+        return {"ran": False}
+    got = dict((k, v) for k, v in out["results"])
+    bad = 0
+    for tag, vals in (("u", us), ("s", ss)):
+        for i, v in enumerate(vals):
+            if got.get(f"{tag}{i}") != float(v):
+                bad += 1
+                rep.report(f"runtime:convert_{tag}:{v}", "correspondence",
+                           "the runtime's convert op disagrees with the trusted round-to-nearest-even spec",
+                           {"op": f"convert_{tag}", "operand": v, "runtime": got.get(f"{tag}{i}"), "spec": float(v)}, found_input=False)
+    return {"ran": True, "ops_in_hugr": out["ops"], "convert_u_values": len(us), "convert_s_values": len(ss), "disagreements": bad,
+            "executed_ops_present": "convert_u" in out["ops"] and "convert_s" in out["ops"]}
 
 
 def value_wrong(e, v, got):
